@@ -278,6 +278,84 @@ theorem without_exp_check_zero_exp_never_expires :
   simp [tokenDecision, authenticationCredential, fields, fieldsAux, isSpace, toLowerC, credentialIsSecure, sigSecure,
     sigCountOK, keyLoop, validate, timeSet, bestPractices, claimPresent, Facts.C04.policy, h1]
 
+/-! ### wiring, configuration and the authorized_keys file (coverage audit) -/
+
+/-- every literal route registration in the repository (non-test code): the first segments, verbatim; none of them is a
+    case variant of an internal bind (`getBindFromPath` lower-cases, the guard and the router do not: such a route would be
+    bound to the internal listener but NOT guarded) -/
+theorem fact_registered_first_segments :
+    Facts.C04.registeredFirstSegments =
+      ["/.well-known".toList, "/discovery".toList, "/iam".toList, "/internal".toList, "/metrics".toList, "/n2n".toList,
+       "/oauth2".toList, "/public".toList, "/statuslist".toList] ∧
+    (∀ s ∈ Facts.C04.registeredFirstSegments, s.map toLowerC ∈ Facts.C04.internalBinds → s ∈ Facts.C04.internalBinds) := by decide
+
+/-- the default configuration uses two different listener addresses (so `internal_never_public` applies to it) -/
+theorem fact_default_addresses_differ :
+    Facts.C04.defaultInternalAddress = "127.0.0.1:8081" ∧ Facts.C04.defaultPublicAddress = ":8080" ∧
+    Facts.C04.defaultInternalAddress ≠ Facts.C04.defaultPublicAddress := by decide
+
+/-- applyAuthMiddleware knows exactly the auth types "" and token_v2; anything else is an error, never "no auth" -/
+theorem fact_auth_types :
+    Facts.C04.authTypeCases = ["\"\"", "BearerTokenAuthV2"] ∧ Facts.C04.authTypeDefaultIsError = true := by decide
+
+theorem configure_auth_sound (typ : String) (ok : Bool) :
+    (configureAuth typ ok = .noAuth → typ = "") ∧ (configureAuth typ ok = .tokenV2 → typ = "token_v2" ∧ ok = true) := by
+  unfold configureAuth
+  constructor
+  · intro h; split at h; · assumption
+    split at h
+    · split at h <;> cases h
+    · cases h
+  · intro h; split at h; · cases h
+    split at h
+    · next ht => split at h; · next hk => exact ⟨ht, hk⟩
+      cases h
+    · cases h
+
+/-- authorized_keys.go: minimum RSA size, the key types keyIsSecure accepts, and parseAuthorizedKeys' tests, verbatim -/
+theorem fact_authorized_keys :
+    Facts.C04.minimumRSAKeySize = 2048 ∧
+    Facts.C04.keyIsSecureTypes = ["*rsa.PublicKey", "*ecdsa.PublicKey", "ed25519.PublicKey"] ∧
+    Facts.C04.parseAuthorizedKeysConds =
+      ["len(lineParts) == 0", "line == \"\"", "err != nil", "secure, err := keyIsSecure(publicKey); !secure || err != nil",
+       "comment == \"\"", "rest != nil", "err != nil"] := by decide
+
+/-- **authorized_keys_sound**: every authorised key comes from a line of the file that is not blank / commented out,
+    carries an RSA key of at least 2048 bits or an ECDSA / Ed25519 key, and has a non-empty comment — which is the
+    key's user name -/
+theorem authorized_keys_sound (ls : List KeyLine) (k : AuthKey)
+    (h : k ∈ authorizedKeysOf Facts.C04.minimumRSAKeySize ls) :
+    ∃ l ∈ ls, l.blank = false ∧ l.comment ≠ "" ∧ k.comment = l.comment ∧
+      (l.kind = .ecdsa ∨ l.kind = .ed25519 ∨ ∃ bits, l.kind = .rsa bits ∧ 2048 ≤ bits) := by
+  rw [fact_authorized_keys.1] at h
+  induction ls with
+  | nil => simp [authorizedKeysOf] at h
+  | cons l rest ih =>
+    simp only [authorizedKeysOf] at h
+    split at h
+    · obtain ⟨l', hl', r⟩ := ih h; exact ⟨l', List.mem_cons_of_mem _ hl', r⟩
+    · next hb =>
+      split at h
+      · obtain ⟨l', hl', r⟩ := ih h; exact ⟨l', List.mem_cons_of_mem _ hl', r⟩
+      · next hs =>
+        split at h
+        · obtain ⟨l', hl', r⟩ := ih h; exact ⟨l', List.mem_cons_of_mem _ hl', r⟩
+        · next hc =>
+          rcases List.mem_cons.mp h with h | h
+          · refine ⟨l, by simp, by simpa using hb, hc, by rw [h], ?_⟩
+            cases hk : l.kind with
+            | ecdsa => exact Or.inl rfl
+            | ed25519 => exact Or.inr (Or.inl rfl)
+            | other => simp [hk, keyIsSecure] at hs
+            | rsa bits => simp [hk, keyIsSecure] at hs; exact Or.inr (Or.inr ⟨bits, rfl, hs⟩)
+          · obtain ⟨l', hl', r⟩ := ih h; exact ⟨l', List.mem_cons_of_mem _ hl', r⟩
+
+example : authorizedKeysOf 2048
+    [{ blank := true, kind := .other, comment := "" }, { blank := false, kind := .ed25519, comment := "alice" },
+     { blank := false, kind := .rsa 1024, comment := "weak" }, { blank := false, kind := .ecdsa, comment := "" },
+     { blank := false, kind := .rsa 2048, comment := "carol" }]
+    = [{ comment := "alice" }, { comment := "carol" }] := by decide
+
 /-! ### internal_never_public -/
 
 /-- the bind table `Configure` builds -/
